@@ -36,6 +36,10 @@ package ledger
 //@ func (ledger.ScriptV1).ToCore
 //@   ensures ret.Plain == s.Script.Plain // C09
 //@   modifies map[string]string
+// C18 C12: whatever JSON value a client puts under `vars` (a string, a number, null, an object with or without asset /
+// amount members of any type), the conversion ends normally: a bulk answers every element, it never dies on one
+//@   nopanic // C18 C12
+//@   alsofor C18 C12
 //@ func (*ledger.TransactionRequest).ToRunScript
 //@   requires req != nil
 //@   ensures ret != nil && ret.Timestamp == req.Timestamp && ret.Reference == req.Reference && (req.Metadata != nil ==> ret.Metadata == req.Metadata) // C09
@@ -52,6 +56,9 @@ package ledger
 //@   ensures forall r *ChainedLog :: r != l ==> r.Hash == old(r.Hash)
 //@   modifies ChainedLog.Hash
 //@   trusted sha256 and encoding/json are library code; what is assumed is that the digest depends on nothing else
+// ... but the body is still executed for the rule below: the digest the entry is written to is this call's own, empty one
+// (a digest kept from an earlier call -- a pool, a field -- still holds what it absorbed: the hash would depend on history)
+//@   bodyrules C13 C05
 
 // chaining: ids increase by exactly one, the first id is 0, the content is copied unchanged
 //@ func (*ledger.Log).ChainLog
@@ -187,7 +194,8 @@ package ledger
 //@ func (ledger.Time).Value
 //@   ensures err == nil && ret0 == anyof(lib("(time.Time).Format", t.Time, "2006-01-02T15:04:05.999999999Z07:00"))
 //@   modifies nothing
-//@   property C13
+// (C04: the same method renders every point-in-time bound of the read queries: a bound cut to the second reads as of an earlier instant)
+//@   property C13 C04
 //@ func (ledger.Time).MarshalJSON
 //@   ensures err == nil && ret0 == bytes(sprintf("\"%s\"", lib("(time.Time).Format", t.Time, "2006-01-02T15:04:05.999999999Z07:00")))
 //@   modifies nothing
